@@ -1025,10 +1025,23 @@ def _decorate_new_with_invariants(new_func: CallableT) -> CallableT:
 
     def wrapper(*args, **kwargs):  # type: ignore
         """Pass the arguments to __new__ and check invariants on the result."""
-        instance = new_func(*args, **kwargs)
+        if (
+            new_func is object.__new__
+            and len(args) > 0
+            and isinstance(args[0], type)
+            and args[0].__init__ is not object.__init__
+        ):
+            # A sub-class defines a constructor. ``object.__new__`` accepts the arguments meant for that constructor
+            # only as long as ``__new__`` is not overridden -- which we just did by wrapping it.
+            instance = new_func(args[0])
+        else:
+            instance = new_func(*args, **kwargs)
 
-        for invariant in instance.__class__.__invariants__:
-            _assert_invariant(contract=invariant, instance=instance)
+        # If the class of the instance defines a constructor, the instance is not constructed yet at this point.
+        # The invariants must be checked only after the constructor, which is the job of the wrapper around it.
+        if instance.__class__.__init__ is object.__init__:
+            for invariant in instance.__class__.__invariants__:
+                _assert_invariant(contract=invariant, instance=instance)
 
         return instance
 
